@@ -249,16 +249,25 @@ def gen_nesting(rnd, w, kind, depth):
     """a nesting of lists/tuples/generators/arrays/literals with leaves of the given value kind"""
     from cspuz.array import BoolArray1D, BoolArray2D, IntArray1D, IntArray2D
     c = rnd.random()
+    pool = w.__dict__.setdefault("pool", [])
     if depth == 0 or c < 0.3:
         if rnd.random() < 0.25:
             return (rnd.random() < 0.5) if kind == "bool" else rnd.randint(-1, 2)
+        if pool and rnd.random() < 0.3:
+            # the SAME expression object again (an item occurring twice counts twice)
+            return rnd.choice(pool)
         if rnd.random() < 0.3:
             x, _, _ = w.mk("bcomp" if kind == "bool" else "icomp", None)
+            pool.append(x)
             return x
-        return w.s.bool_var() if kind == "bool" else w.s.int_var(-1, 1)
+        x = w.s.bool_var() if kind == "bool" else w.s.int_var(-1, 1)
+        pool.append(x)
+        return x
     if c < 0.45:
         n = rnd.randrange(0, 3)
         vs = [w.s.bool_var() if kind == "bool" else w.s.int_var(0, 1) for _ in range(n)]
+        if vs and rnd.random() < 0.4:
+            vs.append(vs[0])        # an array holding one variable twice
         return (BoolArray1D if kind == "bool" else IntArray1D)(vs)
     if c < 0.55:
         h, ww = rnd.choice([(1, 2), (2, 1), (0, 2), (2, 2)])
@@ -443,6 +452,7 @@ def _w(args):
     kind, payload = args
     out = dict(n=0, fails=[], crash=None, samples=[])
     try:
+        load_repo()
         if kind == "ops":
             for c in payload:
                 if c[0] == "bin":
